@@ -448,10 +448,24 @@ func worker(tb []byte, progress func()) []byte {
 	}
 	e := &explorer.Explorer{Bound: t.Bound, MaxSchedules: t.Max, AutoAdvance: sc.Timed || sc.PubSub, HorizonNs: int64(5 * time.Second)}
 	// determinism: the default schedule twice, identical observations
+	// (SPOP / SRANDMEMBER pick by Go map iteration order, which no seam can own without editing the
+	// code: for scenarios using them the schedule shape is compared instead of the replies; the
+	// linearizability oracle accepts any member, so every explored execution is still judged.)
+	random := false
+	for _, th := range sc.Threads {
+		for _, c := range th {
+			if c[0] == "SPOP" || c[0] == "SRANDMEMBER" {
+				random = true
+			}
+		}
+	}
 	var first string
 	for i := 0; i < 2; i++ {
-		in, _, _ := e.Run(mk, nil)
+		in, o, _ := e.Run(mk, nil)
 		k := obsKey(cur)
+		if random {
+			k = fmt.Sprintf("points=%d steps=%d deadlock=%v", len(o.Choices), o.Steps, o.Deadlock)
+		}
 		in.World.Kill()
 		if i == 0 {
 			first = k
@@ -576,7 +590,35 @@ func racePass(prop string, reps int) int {
 				}(ti, prog)
 			}
 			close(start)
-			wg.Wait()
+			// a thread that panicked while holding a lock leaves the others blocked for ever: wait for
+			// the bodies, but not beyond a recorded panic (the panic is the finding) nor beyond the cap
+			// (reported as a note, never as a violation: deadlocks are decided by the controlled pass)
+			done := make(chan struct{})
+			go func() { wg.Wait(); close(done) }()
+			hung := false
+			t0 := time.Now()
+		wait:
+			for {
+				select {
+				case <-done:
+					break wait
+				case <-time.After(20 * time.Millisecond):
+					if (rt.HasFreePanics() && time.Since(t0) > 2*time.Second) || time.Since(t0) > 120*time.Second {
+						hung = true
+						break wait
+					}
+				}
+			}
+			if hung {
+				ps := rt.TakeFreePanics()
+				if len(ps) > 0 {
+					fmt.Fprintf(os.Stderr, "VERIF-PANIC scenario=%s func=%s value=%s (other threads then blocked)\n", sc.ID, ps[0].Func, ps[0].Value)
+				} else {
+					fmt.Fprintf(os.Stderr, "VERIF-HANG scenario=%s\n", sc.ID)
+				}
+				fmt.Fprintf(os.Stderr, "VERIF-SCENARIO-DONE %s\n", sc.ID)
+				os.Exit(0)
+			}
 			for _, c := range cancels {
 				c()
 			}
@@ -596,6 +638,8 @@ type raceRep struct {
 	Scenario string
 	Text     string
 }
+
+var raceHangs int
 
 // runRace runs the -race binary scenario by scenario and parses its reports.
 func runRace(prop string, reps int, rep *ev.Report) (runs int, reports int, ok bool) {
@@ -645,6 +689,9 @@ func runRace(prop string, reps int, rep *ev.Report) (runs int, reports int, ok b
 				Replay: map[string]interface{}{"engine": "concmc", "prop": prop, "scenario": sc.ID, "mode": "race", "report": blk}})
 		}
 		for _, ln := range strings.Split(txt, "\n") {
+			if strings.HasPrefix(ln, "VERIF-HANG") {
+				raceHangs++
+			}
 			if strings.HasPrefix(ln, "VERIF-PANIC") {
 				k := "panic|" + ln
 				if !seen[k] {
@@ -796,6 +843,7 @@ func main() {
 		"race_pass_ran":         raceRan,
 		"race_pass_runs":        raceRuns,
 		"race_reports":          raceReports,
+		"race_pass_hangs":       raceHangs,
 	}
 	os.Exit(rep.Finish(cov, []string{
 		"interleavings inside a region without synchronisation operations are not explored; unsynchronised accesses are the business of the -race pass, which is dynamic and not exhaustive",
